@@ -100,7 +100,7 @@ def eager_family():
 def run(tier, seed):
     rng = random.Random(seed)
     quick = tier == "quick"
-    nrand, depth, budget = (1200, 3, 10) if quick else (50000, 4, 16)
+    nrand, depth, budget = (1200, 3, 10) if quick else (25000, 4, 14)
     extras = handcrafted() + eager_family()
     for _ in range(nrand):
         extras.append(qprog.rand_prog(rng, RANDOM_KINDS, depth, rng.randint(4, budget)))
@@ -108,7 +108,7 @@ def run(tier, seed):
     cov, viol, feats = qprog.drive(
         "C41", tier, seed,
         defs={"Kinds": kinds, "ForSpecs": "{}", "WhileSpecs": "{}", "CondPreds": "{}"},
-        constants={"MaxSize": 3 if quick else 4, "MaxDepth": 2, "NFlav": 2 if quick else 4, "RangeB": 2},
+        constants={"MaxSize": 3 if quick else 4, "MaxDepth": 2, "NFlav": 2, "RangeB": 2},
         extras=extras, trace_limit=700 if quick else 5000,
         what="nested contexts, stop_recording, operand consumed by a wrapper, apply, apply outside recording, raised exception")
     need = ["nested-contexts", "stop_recording", "operand-consumed", "apply", "apply-outside-recording", "exception",
@@ -118,7 +118,7 @@ def run(tier, seed):
         if missing or cov["programs_with_underdetermined_consumption"] < 3:
             raise lib.MachineryError(f"vacuous: features not exercised {missing}")
     cov["exhaustive"] = True
-    cov["bounds"] = {"exhaustive_max_nodes": 3 if quick else 4, "nesting": 2, "flavours": 2 if quick else 4, "random_programs": nrand,
+    cov["bounds"] = {"exhaustive_max_nodes": 3 if quick else 4, "nesting": 2, "flavours": 2, "random_programs": nrand,
                      "random_depth": depth, "random_budget": budget}
     return CheckResult(coverage=cov, violations=viol, assumptions=[
         "qp.apply of a wrapper whose direct operand is in the active queue: both 'operand stays' and 'operand is taken' are accepted "
